@@ -129,7 +129,25 @@ def _tup(x):
     return x if isinstance(x, tuple) else (x,)
 
 
-def weak_config(h, mesh, elem, form, kind, free=None, trial=None, intorder=None, mesh_cls=None, canary=False):
+class _SeqThread:
+    """Sequential stand-in for threading.Thread in symbolic mode (z3 terms must not be built from concurrent native threads):
+    start() only registers the worker; the first join() runs all registered workers in REVERSE start order.  Schedules are C16's
+    subject; here the threaded kernel's index bookkeeping is what matters."""
+    pending = []
+
+    def __init__(self, target=None, args=(), kwargs=None):
+        self.target, self.args, self.kwargs = target, args, kwargs or {}
+
+    def start(self):
+        _SeqThread.pending.append(self)
+
+    def join(self, timeout=None):
+        todo, _SeqThread.pending = list(reversed(_SeqThread.pending)), []
+        for w in todo:
+            w.target(*w.args, **w.kwargs)
+
+
+def weak_config(h, mesh, elem, form, kind, free=None, trial=None, intorder=None, mesh_cls=None, canary=False, nthreads=0):
     import skfem as S
     from skfem.assembly.form.form import FormExtraParams
     ctor, cat, _ = ELEMENTS()[elem]
@@ -163,9 +181,19 @@ def weak_config(h, mesh, elem, form, kind, free=None, trial=None, intorder=None,
                       cells=int(m.t.shape[1])))
 
         # ---- bilinear form --------------------------------------------------------------------------
-        F = S.BilinearForm(fn, dtype=dt)
+        F = S.BilinearForm(fn, dtype=dt, nthreads=nthreads)
         if h.sym_mode:
-            (rows, cols), data, shape, lshape = F._assemble(ub, vb, **extra)
+            if nthreads:
+                import importlib
+                bfm = importlib.import_module('skfem.assembly.form.bilinear_form')
+                real_thread, bfm.Thread = bfm.Thread, _SeqThread
+                h.stub('threading.Thread inside skfem.assembly.form.bilinear_form -> sequential stand-in (workers run in reverse start order at the first join)')
+                try:
+                    (rows, cols), data, shape, lshape = F._assemble(ub, vb, **extra)
+                finally:
+                    bfm.Thread = real_thread
+            else:
+                (rows, cols), data, shape, lshape = F._assemble(ub, vb, **extra)
             h.concrete('shape', tuple(shape) == (Nv, Nu), str(shape))
             h.concrete('index-range', rows.max() < Nv and cols.max() < Nu and rows.min() >= 0 and cols.min() >= 0)
             lhs = 0
@@ -223,6 +251,47 @@ def weak_config(h, mesh, elem, form, kind, free=None, trial=None, intorder=None,
             h.zero('functional: s == a(u_h, v_h)', s - rhs, scale=scale or 1.0)
             el = J.elemental(ub, **ex3)
             h.zero('functional: sum(elemental) == s', np.sum(el) - s, scale=scale or 1.0)
+
+
+def trilinear_config(h, mesh, elems, kind, free=None):
+    """TrilinearForm: T[m, r, c] contracted with (w, v, u) == form(u_h, v_h, w_h) summed with the basis' quadrature; three different
+    local sizes so that every axis mix-up changes the value or the shape."""
+    import skfem as S
+    from skfem.assembly.form.form import FormExtraParams
+    from skfem.assembly.form.trilinear_form import TrilinearForm
+    dt = object if h.sym_mode else np.float64
+    with warnings.catch_warnings():
+        warnings.simplefilter('ignore')
+        m = make_mesh(h, mesh, free=free)
+        E = ELEMENTS()
+        ub = make_basis(h, m, E[elems[0]][0](), kind, intorder=3)
+        vb = make_basis(h, m, E[elems[1]][0](), kind, intorder=3)
+        wb = make_basis(h, m, E[elems[2]][0](), kind, intorder=3)
+        u = h.sym('u', (ub.N,), nominal=(np.arange(ub.N) * 5 % 7) - 2.5)
+        v = h.sym('v', (vb.N,), nominal=(np.arange(vb.N) * 3 % 5) - 1.75)
+        z = h.sym('z', (wb.N,), nominal=(np.arange(wb.N) * 2 % 3) + 0.5)
+        h.sample(dict(mesh=mesh, elements=list(elems), basis=kind, N=[int(ub.N), int(vb.N), int(wb.N)]))
+
+        def fn(u_, v_, w_, p):
+            return u_ * v_.grad[0] * w_ + p.x[0] * u_.grad[-1] * v_ * w_
+
+        T = TrilinearForm(fn, dtype=dt)
+        (mats, rows, cols), data, shape, lshape = T._assemble(ub, vb, wb)
+        h.concrete('shape', tuple(shape) == (wb.N, vb.N, ub.N), str(shape))
+        h.concrete('local shape', tuple(lshape) == (ub.Nbfun, vb.Nbfun, wb.Nbfun), str(lshape))
+        h.concrete('index-range', mats.max() < wb.N and rows.max() < vb.N and cols.max() < ub.N and min(mats.min(), rows.min(), cols.min()) >= 0)
+        lhs = 0
+        for a, r, c_, d in zip(mats, rows, cols, data):
+            lhs = lhs + z[a] * v[r] * d * u[c_]
+        w = FormExtraParams(ub.default_parameters())
+        rhs = np.sum(fn(ub.interpolate(u), vb.interpolate(v), wb.interpolate(z), w) * ub.dx)
+        scale = 1.0 if h.sym_mode else max(1.0, abs(float(rhs)))
+        h.zero('trilinear: T(w, v, u) == t(u_h, v_h, w_h)', lhs - rhs, scale=scale)
+        if not h.sym_mode:
+            dense = T.assemble(ub, vb, wb).todense()
+            h.concrete('dense tensor shape', dense.shape == (wb.N, vb.N, ub.N), str(dense.shape))
+            val = float(np.einsum('mrc,m,r,c', dense, z, v, u))
+            h.zero('trilinear: dense tensor contraction == t(u_h, v_h, w_h)', val - rhs, scale=scale)
 
 
 def floatpath_config(h, mesh, elem, form, kind, scale):
@@ -301,6 +370,8 @@ def build_configs(tier, seed):
             name += '/trial=%s:%s' % kw['trial']
         if kw.get('free') is not None:
             name += '/free=%s' % (kw['free'] if isinstance(kw['free'], str) else ','.join(map(str, kw['free'])))
+        if kw.get('nthreads'):
+            name += '/nthreads=%d' % kw['nthreads']
         if any(c['name'] == name for c in cfgs):
             return
         opts = dict(timeout=300 if quick else 1800)
@@ -344,6 +415,12 @@ def build_configs(tier, seed):
     # a coefficient-vector parameter belongs to the TRIAL basis: different sides / different elements for trial and test
     add('tri2', 'TriP1', 'field', 'ifacet-0', trial=('TriP1', 'ifacet-1'))
     add('tri2', 'TriP2', 'gradfield', 'cell', trial=('TriP1', None))
+    # threaded kernel: rectangular local matrices in both directions, more threads than pairs, facet bases
+    add('tri2', 'TriP1', 'nonsym', 'cell', trial=('TriP2', None), nthreads=2)
+    add('tri2', 'TriP2', 'wx', 'cell', trial=('TriP0', None), nthreads=4)
+    add('tri2', 'TriP0', 'nonsym', 'cell', nthreads=3)
+    add('tri2', 'TriP1', 'ifjump', 'ifacet-0', nthreads=2)
+    add('line3perm', 'LineP2', 'nonsym', 'cell', nthreads=5)
     # globally defined elements: numeric geometry (their V matrix comes from the float LAPACK inverse)
     for el in ['TriMorley'] + ([] if quick else ['TriArgyris', 'TriHermite']):
         # Heronian cells: unit normals are rational, so the exact Vandermonde inverse stays in the rationals
@@ -387,6 +464,11 @@ def build_configs(tier, seed):
         add('hex1', 'Hex0', 'mass', 'cell', free=[0, 1])
         add('hex1', 'HexRT1', 'hdiv', 'cell', free='none')
         add('wedge1', 'Wedge1', 'wx', 'cell', free=[0])
+    # --- trilinear forms: three different local sizes ---------------------------------------------------------------------------
+    for (mesh, elems, kind) in [('tri2', ('TriP1', 'TriP2', 'TriP0'), 'cell'), ('line3perm', ('LineP2', 'LineP1', 'LineP0'), 'cell'),
+                                ('tri2', ('TriP0', 'TriP1', 'TriCR'), 'facet')]:
+        cfgs.append(dict(name='trilinear/%s/%s/%s' % (mesh, 'x'.join(elems), kind), fn=trilinear_config,
+                         kw=dict(mesh=mesh, elems=elems, kind=kind), opts=dict(timeout=300 if quick else 1800)))
     # --- Mode F: real float64 CSR path against the exact assembly, unit-size and tiny (1e-9) geometry ----------------------------
     for (mesh, elem, form, kind) in [('tri2', 'TriP2', 'lap', 'cell'), ('tri2', 'TriP1', 'mass', 'cell'), ('tet2', 'TetP1', 'mass', 'cell'),
                                      ('line3perm', 'LineP2', 'mass', 'cell'), ('tri2heron0', 'TriP1', 'mass', 'facet'), ('quad2', 'Quad1', 'mass', 'cell')]:
@@ -406,7 +488,7 @@ META = dict(
     bounds=dict(meshes='1-3 cell meshes of Line1/Tri1/Quad1/Tet1 with ALL vertex coordinates symbolic (either orientation); Hex1/Wedge1 numeric or 1-2 free vertices; '
                        'globally defined elements numeric geometry', elements='see configuration names',
                 integrands='values, grad, div, curl, hess, products with w.x, w.h, w.n, interpolated field and its gradient, scalar'),
-    outside=['complex dtype', 'trilinear forms', 'meshes larger than the zoo', 'threaded kernel (C16)', 'float rounding',
+    outside=['complex dtype', 'meshes larger than the zoo', 'thread schedules (C16; here the threaded kernel runs its workers sequentially in reverse start order)', 'float rounding',
              'duplicate summation inside scipy CSR construction (the COO triplets are contracted directly in symbolic mode; the float replay uses the real CSR path)'],
     assumptions=['mesh validity: cell determinants non-zero, neighbours on opposite sides of shared facets, quadrilaterals convex'],
     design_ref='DESIGN.md 4/C01',
